@@ -412,6 +412,9 @@ func calleeName(c *ssa.CallCommon) string {
 // Key is the canonical name of a dynamic value on this path: structural for pure expressions,
 // identity (name@visit) for everything whose value depends on memory or effects.
 func (p *Path) Key(dv DV) string {
+	if dv.V == nil {
+		return "<none>"
+	}
 	dv = p.Resolve(dv)
 	id := func() string { return fmt.Sprintf("#%s@%d", dv.V.Name(), dv.I) }
 	switch v := dv.V.(type) {
@@ -593,6 +596,12 @@ func (p *Path) assumeTruth(dv DV, want bool) bool {
 				}
 			}
 			return p.set("("+lk+" == "+rk+")", false, eq, dv)
+		}
+	}
+	// errors.Is(err, target)==true implies err != nil
+	if call, ok := dv.V.(*ssa.Call); ok && want && calleeName(&call.Call) == "errors.Is" {
+		if !p.assumeNil(p.Op(call.Call.Args[0], dv), false) {
+			return false
 		}
 	}
 	return p.set(p.Key(dv), false, want, dv)
